@@ -208,6 +208,7 @@ impl anstyle_parse::Perform for WinconCapture {
                             ColorTarget::Bg => style.bg_color(Some(color.into())),
                             ColorTarget::Underline => style.underline_color(Some(color.into())),
                         };
+                        state = State::Normal;
                         break;
                     }
                     (State::Rgb, b) => match (r, g) {
@@ -224,6 +225,7 @@ impl anstyle_parse::Perform for WinconCapture {
                                 ColorTarget::Bg => style.bg_color(Some(color.into())),
                                 ColorTarget::Underline => style.underline_color(Some(color.into())),
                             };
+                            state = State::Normal;
                             break;
                         }
                     },
@@ -255,9 +257,14 @@ impl anstyle_parse::Perform for WinconCapture {
                             | anstyle::Effects::DASHED_UNDERLINE;
                     }
                     _ => {
+                        state = State::Normal;
                         break;
                     }
                 }
+            }
+            if state == State::Underline {
+                // The underline style is a sub-parameter (`4:3`), it does not extend to the next parameter
+                state = State::Normal;
             }
         }
 
